@@ -17,6 +17,8 @@ const (
 	fUpdLive    = "under:" + lkUpdater + ":live"
 )
 
+const resolveGo = "v2/pkg/engine/resolve/resolve.go"
+
 func init() {
 	Registry["C12"] = Spec{
 		Pkgs: map[string][]string{"v2": {"resolve"}},
@@ -26,6 +28,23 @@ func init() {
 			"that the completed channel is closed at one site under writeMu, reached only through closeSubs, whose arguments are fed only by elements won through removed.CompareAndSwap(false,true); " +
 			"that every subscriptionUpdater callback enters the resolver only under updater.mu after the done/ctx gate; and that handleTriggerUpdate joins its workers. " +
 			"It does not decide ordering or exactness of the delivered messages (value/ history level).",
+		Mutants: []Mutant{
+			{Name: "heartbeat written without re-checking removed", File: resolveGo, Rule: "C12-R1", Key: "sendHeartbeat",
+				Old: "\tif s.removed.Load() {\n\t\treturn nil\n\t}\n\treturn s.writer.Heartbeat()", New: "\treturn s.writer.Heartbeat()"},
+			{Name: "removed tested before writeMu is taken in executeSubscriptionUpdate", File: resolveGo, Rule: "C12-R1", Key: "executeSubscriptionUpdate",
+				Old: "\tsub.writeMu.Lock()\n\tif sub.removed.Load() {\n\t\tsub.writeMu.Unlock()\n\t\tr.resolveArenaPool.Release(resolveArena)\n\t\treturn\n\t}",
+				New: "\tif sub.removed.Load() {\n\t\tr.resolveArenaPool.Release(resolveArena)\n\t\treturn\n\t}\n\tsub.writeMu.Lock()"},
+			{Name: "subscription queued for close without winning the CAS", File: resolveGo, Rule: "C12-R2", Key: "removeSubscriptionLocked",
+				Old: "\tif s.removed.CompareAndSwap(false, true) {\n\t\ttoClose = append(toClose, s)\n\t}\n\tdelete(trig.subscriptions, id)",
+				New: "\ts.removed.Store(true)\n\ttoClose = append(toClose, s)\n\tdelete(trig.subscriptions, id)"},
+			{Name: "lifecycle gate dropped from subscriptionUpdater.Heartbeat", File: resolveGo, Rule: "C12-R3", Key: "subscriptionUpdater.Heartbeat",
+				Old: "func (s *subscriptionUpdater) Heartbeat() {\n\ts.mu.Lock()\n\tdefer s.mu.Unlock()\n\tif s.done || s.ctx.Err() != nil {\n\t\treturn\n\t}",
+				New: "func (s *subscriptionUpdater) Heartbeat() {\n\ts.mu.Lock()\n\tdefer s.mu.Unlock()"},
+			{Name: "handleTriggerUpdate returns without joining its workers", File: resolveGo, Rule: "C12-R3", Key: "join",
+				Old: "\t\t})\n\t}\n\twg.Wait()\n}", New: "\t\t})\n\t}\n}"},
+			{Name: "done() called directly from handleTriggerComplete", File: resolveGo, Rule: "C12-R2", Key: "call-done",
+				Old: "\t\tif !s.removed.Load() {\n\t\t\ts.complete()\n\t\t}", New: "\t\tif !s.removed.Load() {\n\t\t\ts.complete()\n\t\t\ts.done()\n\t\t}"},
+		},
 	}
 }
 
